@@ -21,18 +21,29 @@ Reasons(r) ==
         \* it keeps must be the rule's edit, and it keeps all of them when none intersect
         \* ... and when some intersect, what it keeps is an accepted selection in the sense of Replace.tla (C06/C18): the kept
         \* edits are pairwise disjoint and every edit left out intersects a kept one that does not start after it
-        sorted == SortByPos([k \in 1..Len(want) |-> Norm(want[k])])
-        KeptIdx(name) == { k \in 1..Len(sorted) : sorted[k] \in SetOf(fe[name]) }
-        CmpSome(name) == IF ~has(name) \/ (/\ SetOf(fe[name]) \subseteq wantSet
-                                            /\ (disjoint => SetOf(fe[name]) = wantSet)
-                                            /\ (want = <<>> \/ fe[name] # <<>>))
-                         THEN (IF has(name) /\ ~disjoint /\ Len(sorted) <= 10 /\ Cardinality(SetOf(sorted)) = Len(sorted)
-                                  /\ ~AcceptedSelection(sorted, KeptIdx(name))
-                               THEN {<<name, "kept-edits-are-not-an-accepted-selection">>} ELSE {})
-                         ELSE {<<name, "edit-differs">>} IN
+        CmpSomeOf(name, w) ==
+            LET wSet == SetOf(w)
+                dj == PairwiseDisjoint(w)
+                sorted == SortByPos([k \in 1..Len(w) |-> Norm(w[k])])
+                KeptIdx == { k \in 1..Len(sorted) : sorted[k] \in SetOf(fe[name]) } IN
+            IF ~has(name) \/ (/\ SetOf(fe[name]) \subseteq wSet
+                              /\ (dj => SetOf(fe[name]) = wSet)
+                              /\ (w = <<>> \/ fe[name] # <<>>))
+            THEN (IF has(name) /\ ~dj /\ Len(sorted) <= 10 /\ Cardinality(SetOf(sorted)) = Len(sorted)
+                     /\ ~AcceptedSelection(sorted, KeptIdx)
+                  THEN {<<name, "kept-edits-are-not-an-accepted-selection">>} ELSE {})
+            ELSE {<<name, "edit-differs">>}
+        CmpSome(name) == CmpSomeOf(name, want)
+        \* Node::replace_all rewrites the matches of the overlap-free visit (C01): a match inside the NODE of another match is
+        \* not rewritten, even where the other match's edit ends before it (`if ($A) $B` on an else-if chain)
+        ms == r.matches
+        IsOuter(k) == ~\E j \in 1..Len(ms) : j # k /\ ms[j].s <= ms[k].s /\ ms[k].e <= ms[j].e
+                                              /\ (ms[j].s < ms[k].s \/ ms[k].e < ms[j].e \/ j < k)
+        outerIdx == SelectSeq([k \in 1..Len(ms) |-> k], IsOuter)
+        wantOuter == EditsP([i \in 1..Len(outerIdx) |-> ms[outerIdx[i]]], r.exp) IN
     CmpAll("json") \cup CmpAll("lib_make_edit") \cup CmpAll("lsp_quickfix")
     \cup (IF fe.lib_replace = (IF want = <<>> THEN <<>> ELSE <<Norm(want[1])>>) THEN {} ELSE {<<"lib_replace", "edit-differs">>})
-    \cup CmpSome("lib_replace_all") \cup CmpSome("lsp_fixall") \cup CmpSome("lsp_apply")
+    \cup CmpSomeOf("lib_replace_all", wantOuter) \cup CmpSome("lsp_fixall") \cup CmpSome("lsp_apply")
     \cup (IF disjoint /\ fe.updated # Splice(r.bytes, SortByPos(want)) THEN {<<"updated", "file-differs">>} ELSE {})
     \cup (IF ~has("snapshot") THEN {}
           ELSE IF want = <<>> THEN (IF fe.snapshot.present THEN {<<"snapshot", "unexpected">>} ELSE {})
